@@ -87,6 +87,38 @@ def gen(rng, tier):
         for w in [None, 0, 1, "", "0x", True, False, {}, {"v": 1}, [None], [[None]], [0], ["x"], Raw("1e2"), []]:
             d = {"types": J2(types, [("name", "string")]), "primaryType": prim, "domain": {"name": "d"}, "message": mk(w)}
             cases.append(Case("td.hash " + hx(tdgen.dumps(d)), tags=("wrong-kind", "recursive-type"), meta={"token": str(w) if isinstance(w, Raw) else None}))
+    # perturbed spellings of string-valued members: integers as decimal / hex strings, addresses, bytes — white space, case,
+    # doubled / stacked prefixes, signs before and after the prefix, separators, quotes, invisible characters
+    from vlib.core import perturb
+    for t, good_vals in (("uint256", ["16", "0x10", str(2 ** 200)]), ("int64", ["-16", "0x10", "-0x10"]), ("uint8", ["255", "0xff"]),
+                         ("address", ["0xCD2a3d9F938E13CD947Ec05AbC7FE734Df8DD826"]), ("bytes", ["0xabcdef"]), ("bytes4", ["0xdeadbeef"]), ("bytes32", ["0x" + "5a" * 32])):
+        for g in good_vals:
+            pre = "0x" if g.startswith("0x") else ("-0x" if g.startswith("-0x") else None)
+            for w in perturb(g, pre) if pre else perturb(g):
+                cases.append(Case("td.hash " + hx(tdgen.dumps(doc_for(t, w, rng.randrange(3)))), tags=("perturbed-string", t)))
+    # repeated things: a struct type that lists a member name twice (same or different types, adjacent or not; primary,
+    # nested, array element), a value object with a repeated key, a types object with a repeated type name
+    def raw_doc(types_text, prim, msg_text):
+        return '{"types":{"EIP712Domain":[{"name":"name","type":"string"}],%s},"primaryType":"%s","domain":{"name":"d"},"message":%s}' % (types_text, prim, msg_text)
+    m = lambda n_, t_: '{"name":"%s","type":"%s"}' % (n_, t_)
+    dup_types = [
+        ('"P":[%s,%s]' % (m("a", "uint8"), m("a", "uint8")), "P", '{"a":1}'),
+        ('"P":[%s,%s]' % (m("a", "uint8"), m("a", "string")), "P", '{"a":1}'),
+        ('"P":[%s,%s,%s]' % (m("a", "uint8"), m("b", "bool"), m("a", "uint8")), "P", '{"a":1,"b":true}'),
+        ('"P":[%s,%s,%s]' % (m("a", "uint8"), m("b", "bool"), m("a", "uint8")), "P", '{"a":1,"b":true,"a":1}'),
+        ('"P":[%s],"Q":[%s,%s]' % (m("q", "Q"), m("x", "bool"), m("x", "bool")), "P", '{"q":{"x":true}}'),
+        ('"P":[%s],"Q":[%s,%s]' % (m("q", "Q[]"), m("x", "bool"), m("x", "bool")), "P", '{"q":[{"x":true}]}'),
+        ('"P":[%s],"Q":[%s,%s]' % (m("q", "Q[]"), m("x", "bool"), m("x", "bool")), "P", '{"q":[]}'),
+        ('"P":[%s,%s]' % (m("a", "uint8"), m("a", "uint8")), "P", '{}'),
+        ('"P":[%s]' % m("a", "uint8"), "P", '{"a":1,"a":2}'),
+        ('"P":[%s]' % m("a", "uint8"), "P", '{"a":300,"a":2}'),
+        ('"P":[%s]' % m("a", "uint8"), "P", '{"a":2,"a":300}'),
+        ('"P":[%s],"P":[%s]' % (m("a", "uint8"), m("b", "bool")), "P", '{"a":1}'),
+        ('"P":[%s],"P":[%s]' % (m("a", "uint8"), m("b", "bool")), "P", '{"b":true}'),
+        ('"P":[%s],"Q":[%s],"Q":[%s]' % (m("q", "Q"), m("x", "bool"), m("y", "uint8")), "P", '{"q":{"y":1}}'),
+    ]
+    for tt, prim, msg in dup_types:
+        cases.append(Case("td.hash " + hx(raw_doc(tt, prim, msg)), tags=("repeated", "member-or-key-or-type")))
     # fixed-size arrays: every length 0..N+2 for N in {1,2,3,5}, several element types and nesting positions
     for N in (1, 2, 3, 5):
         for inner, val in (("uint8", 1), ("string", "s"), ("bool", True), ("bytes2", "0xabcd")):
